@@ -301,8 +301,9 @@ def strip_job_line(raw):
     return code.strip()
 
 
-def run_job(lines, corrupt=(), holds=None, deadline=20.0, pauses=(), instant=False, next_jobs=(), corrupt_open=()):
-    """Stream `lines` with the real printcore (then, on the same connection, each job of `next_jobs`). Returns the trace."""
+def run_job(lines, corrupt=(), holds=None, deadline=20.0, pauses=(), instant=False, next_jobs=(), corrupt_open=(), mode="serial"):
+    """Stream `lines` with the real printcore (then, on the same connection, each job of `next_jobs`). Returns the trace.
+    mode "socket": the same firmware behind a TCP connection (printcore.connect("host:port")), replies arriving in fragments."""
     from gscrib.printrun import gcoder
     from gscrib.printrun.printcore import printcore
     hub = Hub(corrupt=corrupt, holds=holds, instant=instant)
@@ -311,13 +312,15 @@ def run_job(lines, corrupt=(), holds=None, deadline=20.0, pauses=(), instant=Fal
     job = [strip_job_line(x) for x in lines]
     job = [x for x in job if x]
     joined = False
-    with patched(hub):
+    with (patched(hub) if mode == "serial" else patched_socket(hub)):
         p = printcore()
         p.loud = False
         try:
-            p.connect("/mocked/port", 115200)
+            p.connect("/mocked/port" if mode == "serial" else "127.0.0.1:8000", 115200)
             t0 = time.monotonic()
             while not p.online and time.monotonic() - t0 < 5:
+                if mode != "serial":
+                    hub.pump()
                 time.sleep(0.002)
             if not p.online:
                 raise RuntimeError("host never came online")
@@ -392,7 +395,7 @@ def run_job(lines, corrupt=(), holds=None, deadline=20.0, pauses=(), instant=Fal
         e.setdefault("job", [])
         e.pop("i", None)
     return {"meta": {"corrupt": sorted(corrupt), "holds": {str(k): v for k, v in (holds or {}).items()}, "pauses": sorted(pauses),
-                     "instant": bool(instant), "jobs": 1 + len(next_jobs), "corrupt_open": sorted(corrupt_open)},
+                     "instant": bool(instant), "jobs": 1 + len(next_jobs), "corrupt_open": sorted(corrupt_open), "mode": mode},
             "job": [list(x.encode("ascii")) for x in job], "raw": lines, "ev": ev}
 
 
